@@ -26,7 +26,7 @@ def confirm(wt, which, name, prop):
     patch = os.path.join(out, "patch%s.diff" % which)
     demo = os.path.join(out, "demo%s.py" % which)
     assert os.path.exists(patch) and os.path.exists(demo), (patch, demo)
-    sh("git checkout -q --detach main && git checkout -- .", cwd=wt)
+    sh("git reset -q --hard; git checkout -q --detach main && git checkout -- .", cwd=wt)
     rc, o = sh("git status --short | grep -v '^??'", cwd=wt)
     rc, o = sh("git apply --3way %s || patch -p1 < %s" % (patch, patch), cwd=wt)
     assert rc == 0, "patch does not apply: " + o
@@ -36,7 +36,7 @@ def confirm(wt, which, name, prop):
     rc, diff = sh("git diff", cwd=wt)
     sh("git checkout -- .", cwd=wt)
     rc_d0, o_d0 = sh("%s %s" % (PY, demo), cwd=wt)
-    ok = ("passed" in o_t and "failed" not in o_t) and rc_d1 != 0 and rc_d0 == 0
+    ok = ("passed" in o_t and "failed" not in o_t and "error" not in o_t) and rc_d1 != 0 and rc_d0 == 0
     print("suite with change:", o_t.strip())
     print("demo with change: exit", rc_d1, "| without: exit", rc_d0)
     if not ok:
